@@ -7,3 +7,9 @@ import GontainerModel.Props.C05
 #print axioms GM.C05.shared_once
 #print axioms GM.C05.contextual_once_per_bag
 #print axioms GM.C05.default_scope_documented
+#print axioms GM.C05.shared_first_get_caches
+#print axioms GM.C05.shared_once_per_container
+#print axioms GM.C05.contextual_once_per_context
+#print axioms GM.C05.contexts_are_separate
+#print axioms GM.C05.plain_get_has_fresh_bag
+#print axioms GM.C05.demoHist_kind
